@@ -11,7 +11,9 @@
      system : NotImplementedError (so every function going through _reshuffling has only a
      row/column model: argument [col : bool])
    * every composite *_to_* function is the composition written in the source, INCLUDING which
-     keyword arguments are forwarded (to_pauli_liouville does not forward `order`). *)
+     keyword arguments are forwarded.  (Before repair 2621e9186 to_pauli_liouville did not forward
+     `order`, and before d90e25ba4 the non-pure branch of QuantumChannel.apply contracted the
+     output indices; those formulas are kept as *_prefix definitions for the historical lemmas.) *)
 From Coq Require Import List Bool Arith Lia.
 From QV Require Import Base.Mat C17.Alg.
 Import ListNotations.
@@ -137,16 +139,18 @@ Section Model.
     Definition chi_to_pauli (col : bool) (n : nat) (X : mat T) : mat T :=
       choi_to_pauli col n (pauli_to_liouville (ord col (2 ^ n)) n X).
 
-    (* to_pauli_liouville(channel, normalize, order, pauli_order): the basis-change matrix is
-       built by comp_basis_to_pauli(nqubits, normalize, pauli_order=...) -- `order` is NOT
-       forwarded, so it is the row-order matrix whatever `order` is. *)
+    (* to_pauli_liouville(channel, normalize, order, pauli_order): to_liouville, then conjugation with
+       comp_basis_to_pauli(nqubits, normalize, order=order, pauli_order=pauli_order) *)
     Definition to_pauli_liouville (col : bool) (n : nat) (U : mat T) : mat T :=
+      let L := to_liouville col (2 ^ n) U in
+      let B := comp_basis_to_pauli (ord col (2 ^ n)) n in
+      mmul3 B L (dagger (4 ^ n) (4 ^ n) B).
+    (* HISTORICAL (pre-repair formula): `order` was not forwarded to comp_basis_to_pauli, so the
+       row-order basis change was used whatever `order` was *)
+    Definition to_pauli_liouville_prefix (col : bool) (n : nat) (U : mat T) : mat T :=
       let L := to_liouville col (2 ^ n) U in
       let B := comp_basis_to_pauli (Row (2 ^ n)) n in
       mmul3 B L (dagger (4 ^ n) (4 ^ n) B).
-    (* what it would be with `order` forwarded (used by the refutation / the proposed fix) *)
-    Definition to_pauli_liouville_fixed (col : bool) (n : nat) (U : mat T) : mat T :=
-      liouville_to_pauli (ord col (2 ^ n)) n (to_liouville col (2 ^ n) U).
     Definition to_chi (o : vorder) (n : nat) (U : mat T) : mat T :=
       liouville_to_pauli o n (to_choi o U).
   End Pauli.
@@ -189,9 +193,13 @@ Section Model.
   Definition qn_full (p0 p1 : nat) (t : mat T) : mat T :=
     mk (p0 * p0) (p1 * p1) (fun x y =>
       mul K (mget t (x / p0) (y / p1)) (cj (mget t (x mod p0) (y mod p1)))).
-  (* QuantumChannel.apply, non-pure branch, as written:  einsum("ijkl,jl", operator, state)
-     with operator[i,j,k,l] = tensor[(i,k)][(j,l)]  -> result indexed (i,k) *)
+  (* QuantumChannel.apply, non-pure branch:  einsum("ijkl, ik -> jl", operator, state)
+     with operator[i,j,k,l] = tensor[(i,k)][(j,l)]  -> result indexed (j,l), state on the input pair *)
   Definition qn_apply (p0 p1 : nat) (t : mat T) (rho : mat T) : mat T :=
+    mk p1 p1 (fun j l => bsum K p0 (fun i => bsum K p0 (fun k =>
+      mul K (mget t (i * p0 + k) (j * p1 + l)) (mget rho i k)))).
+  (* HISTORICAL (pre-repair formula): einsum("ijkl,jl", operator, state) -> result indexed (i,k) *)
+  Definition qn_apply_prefix (p0 p1 : nat) (t : mat T) (rho : mat T) : mat T :=
     mk p0 p0 (fun i k => bsum K p1 (fun j => bsum K p1 (fun l =>
       mul K (mget t (i * p0 + k) (j * p1 + l)) (mget rho j l)))).
   (* pure branch: einsum("ij,lk,il", t, conj t, state) -> result indexed (j,k) *)
